@@ -25,6 +25,7 @@ Definition zlen {A} (l : list A) : Z := Z.of_nat (length l).
 Definition rbrace : byte := byte_of_N 125.      (* '}' *)
 Definition MAX_BLOB_SIZE : Z := 2097152.
 Definition MAX_REQUEST_SIZE : Z := 1200.
+Definition MAX_RESPONSE_SIZE : Z := 16384.     (* serialization.MAX_RESPONSE_SIZE = 16 * 1024 *)
 
 (* ---------------------------------------------------------------- responses (client side) *)
 
@@ -128,21 +129,24 @@ Section Model.
 Variable H : bytes -> bytes.
 Variable json_loads : bytes -> jres.
 
-(* _parse_blob_response: try every prefix ending in '}' from the left; racc = bytes already passed, reversed *)
-Fixpoint scan (racc : bytes) (rest : bytes) : parsed :=
+(* _parse_blob_response: try every prefix ending in '}' from the left, but only '}' at an index below
+   MAX_RESPONSE_SIZE; racc = bytes already passed (reversed), pos = their number *)
+Fixpoint scan (pos : Z) (racc : bytes) (rest : bytes) : parsed :=
   match rest with
   | [] => PNone
   | b :: rest' =>
       if byte_eqb b rbrace then
-        match json_loads (rev (b :: racc)) with
-        | JInvalid => scan (b :: racc) rest'
+        if pos >=? MAX_RESPONSE_SIZE then PNone
+        else
+        match json_loads (rev_append (b :: racc) []) with
+        | JInvalid => scan (pos + 1) (b :: racc) rest'
         | JNotResp => PNone
         | JRaise => PRaise
         | JResp r => PResp r (S (length racc))
         end
-      else scan (b :: racc) rest'
+      else scan (pos + 1) (b :: racc) rest'
   end.
-Definition parse_prefix (msg : bytes) : parsed := scan [] msg.
+Definition parse_prefix (msg : bytes) : parsed := scan 0 [] msg.
 
 (* HashBlobWriter.write *)
 Definition writer_write (hash : bytes) (explen : option Z) (w : writer) (data : bytes) : writer * wout :=
@@ -205,7 +209,9 @@ Definition parse_path (c : client) (data : bytes) : client * bool :=
   match parse_prefix msg with
   | PRaise => (c, true)
   | PNone =>
-      if negb (fut_done (c_fut c)) then (set_buf msg c, false)
+      if negb (fut_done (c_fut c)) then
+        (* self.buf += data; more than MAX_RESPONSE_SIZE unrecognised bytes: close *)
+        if zlen msg >? MAX_RESPONSE_SIZE then (close (set_buf msg c), false) else (set_buf msg c, false)
       else write_if_open (set_buf [] c) msg
   | PResp r n =>
       let c0 := set_buf [] c in
